@@ -100,6 +100,7 @@ fn dispatch(group: &str, case: &Value, rep: &mut util::Report, rng: &mut util::R
         "objective" => terms::replay_objective(case, rep, rng),
         "activation" => terms::replay_activation(case, rep),
         "softmaxce" => terms::replay_softmaxce(case, rep),
+        "layerterm" => terms::replay_layerterm(case, rep, rng),
         _ => panic!("unknown group {}", group),
     }
 }
